@@ -420,7 +420,7 @@ def r3(ctx, r):
     r.instance()
     r.expect(not others, others[0][0] if others else h, others[0][1] if others else None, "second buffer append", "SessionInfo::buffer is appended to outside the capped site", okdesc="one append site")
     hdrb = [b for b in h.blocks.values() if b.cond is not None and common.cmp_parts(b.cond) and "MAX_HEADER_SIZE" in show(b.cond) and key_of(common.cmp_parts(b.cond)[1]) == "headerEnd"]
-    hs = [e for e in h.stmts() if e.node.get("k") == "decl" and any(v["n"] == "headerSection" for v in e.node["vars"])]
+    hs = [e for e in h.stmts() if "root" in e.raw and "headerSection" in show(e.node) and "headerEnd" in show(e.node)]
     r.instance()
     r.expect(len(hdrb) == 1 and len(hs) == 1 and dominated_by_edge(h, hs[0], hdrb[0], 1, eh=False), h, None, "header cap", "the header block is parsed without the MAX_HEADER_SIZE test", okdesc="MAX_HEADER_SIZE before header parsing")
     # body cap: part of R1's bound; here: the rejecting edge leaves
@@ -616,6 +616,21 @@ def r6(ctx, r):
         pa = flag_abs(h, {"bufferLimitExceeded": "lim"}, {whole[0]: "whole"})
         ok = all(pa.entails(e, A("whole")) for e in finds)
     r.expect(ok, h, finds[0] if finds else None, "terminator search", "the header terminator is searched on a path where dataStr does not hold the whole accumulated buffer", okdesc="terminator searched in the accumulated buffer")
+    # per-request framing state: the variables that carry one request's length information are re-initialised before the
+    # framing decision of every request extracted from the same buffer (pipelining)
+    dec = [e for e in h.stmts() if (e.node.get("k") == "mcall" and last(e.node.get("callee", "")) == "findChunkedRequestEnd") or
+           (e.node.get("k") == "decl" and any(v["n"] == "totalExpectedLength" for v in e.node["vars"]))]
+    for var in ("contentLength", "hasContentLength", "isChunked"):
+        inits = [e for e in h.stmts() if (e.node.get("k") == "decl" and any(v["n"] == var and const_value(strip_casts(v.get("init") or {})) == 0 for v in e.node["vars"]))
+                 or (asg(e.node) and key_of(asg(e.node)[0]) == var and const_value(strip_casts(asg(e.node)[1])) == 0)]
+        r.instance()
+        w = None
+        for d in dec:
+            for d2 in dec:
+                w = w or search(h, d, lambda x, d2=d2: x is d2, stop=lambda x: x in inits, eh=False)
+        r.expect(bool(inits) and w is None, h, inits[0] if inits else None, "framing state carried over: %s" % var, "`%s` is not re-initialised on the way from one request's framing decision to the next request extracted from the same buffer: "
+                 "a pipelined request inherits the previous request's length information (a GET after a POST waits for a body, or is rejected as conflicting) — framing then depends on how the stream was cut into reads" % var,
+                 witness=witness_str(h, w), okdesc="`%s` re-initialised for every extracted request" % var)
     # consume exactly [0, requestEndPos)
     req = [v for e in h.stmts() if e.node.get("k") == "decl" for v in e.node["vars"] if v["n"] == "requestData"]
     rest = [e for e in h.stmts() if asg(e.node) and key_of(asg(e.node)[0]) == "dataStr" and "substr" in show(asg(e.node)[1])]
@@ -756,6 +771,22 @@ def r7(ctx, r):
     r.instance()
     r.expect(len(thr) == 1 and pa.entails(thr[0], And(TE, CL)) and all(pa.entails(e, Not(And(TE, CL))) for e, m in rets if m != "NoBody"), f, None, "both present", "a response with both Content-Length and Transfer-Encoding is not rejected before a framing mode is chosen",
              okdesc="TE ∧ CL → HttpFramingError")
+    # every header block is parsed into a fresh Response: fields of a discarded interim response must not leak into the final one
+    frx = fn(ctx, HC, "frameResponse", HCF)
+    phs = [e for e in frx.stmts() if e.node.get("k") == "mcall" and last(e.node.get("callee", "")) == "parseHeaderBlock"]
+    r.instance()
+    okf = len(phs) == 1
+    if okf:
+        tgt = key_of(phs[0].node["args"][1])
+        resets = [e for e in frx.stmts() if asg(e.node) and key_of(asg(e.node)[0]) == tgt and strip_casts(strip_wrappers(asg(e.node)[1])).get("k") in ("ctor", "ilist") and
+                  not [x for x in strip_casts(strip_wrappers(asg(e.node)[1])).get("args", []) if not x.get("def")]]
+        phb = fn(ctx, HC, "parseHeaderBlock", HCF)
+        clears = [e for e in phb.stmts() if e.node.get("k") == "mcall" and last(e.node.get("callee", "")) == "clear" and "headers" in show(e.node.get("obj") or {})]
+        self_clearing = bool(clears) and all(search(phb, ("entry",), lambda x: x.kind == "stmt" and asg(x.node) is not None and "headers" in show(asg(x.node)[0]), stop=lambda x: x in clears, eh=False) is None for _ in [0])
+        okf = self_clearing or (bool(resets) and search(frx, ("entry",), lambda x: x is phs[0], stop=lambda x: x in resets, eh=False) is None and search(frx, phs[0], lambda x: x is phs[0], stop=lambda x: x in resets, eh=False) is None)
+    r.expect(okf, frx, phs[0] if phs else None, "interim headers leak", "frameResponse parses a header block into `%s` without resetting it first (and parseHeaderBlock does not clear the header map): after an interim 1xx response is discarded its "
+             "fields (Link, Content-Length: 0, …) are merged into the final response — wrong header fields, and determineFraming sees length information the final response never sent" % (key_of(phs[0].node["args"][1]) if phs else "resp"),
+             okdesc="each header block parsed into a fresh Response")
     # interim responses skipped before framing
     fr = fn(ctx, HC, "frameResponse", HCF)
     df = [e for e in fr.stmts() if e.node.get("k") == "mcall" and last(e.node.get("callee", "")) == "determineFraming"]
@@ -798,6 +829,27 @@ def r8(ctx, r):
         plain = [e for e in p.stmts() if asg(e.node) and show(strip_casts(asg(e.node)[0])) == "req.body" and e is not dec[0]]
         ok = len(plain) == 1 and elem_dominates(p, plain[0], dec[0], eh=False)
     r.expect(ok, p, dec[0] if dec else None, "chunked body not decoded", "a request that framing recognised as chunked reaches Request::body still chunk-encoded", okdesc="chunked ⇒ req.body = parseChunkedBody(…)")
+    # chunk data is followed by CRLF: checked by both siblings before the position moves past it
+    for (f_, buf, base, label) in ((fn(ctx, HS, "findChunkedRequestEnd", HSF), "data", "pos", "server"), (fn(ctx, HC, "advanceChunked", HCF), "buf", "dataStart", "client")):
+        advs = [e for e in f_.stmts() if (e.node.get("k") == "bin" and e.node.get("op") == "+=" and key_of(e.node["lhs"]) in (base, "st.pos") and "chunkSize" in show(e.node["rhs"])) or
+                (asg(e.node) and show(strip_casts(asg(e.node)[0])) in (base, "st.pos") and "chunkSize" in show(asg(e.node)[1]))]
+        r.instance()
+        if not advs:
+            raise AnalysisBroken("%s: advance past the chunk data not found" % last(f_.name))
+        seen = set()
+        for (c, truth) in dominating_facts(f_, advs[0]):
+            cp = common.cmp_parts(strip_casts(c))
+            if not cp:
+                continue
+            idx = [x for x in walk(cp[1]) if (x.get("k") == "idx" or (x.get("k") == "opcall" and x.get("op") == "[]"))]
+            cv = const_value(cp[2])
+            if len(idx) == 1 and cv in (13, 10) and ((cp[0] == "!=" and not truth) or (cp[0] == "==" and truth)):
+                ie = idx[0].get("i") or idx[0].get("index") or (idx[0].get("args") or [None, None])[1]
+                fm = lin(ie)
+                if fm is not None and sorted(fm[1]) == sorted([base, "chunkSize"]):
+                    seen.add((fm[0], cv))
+        r.expect({(0, 13), (1, 10)} <= seen, f_, advs[0], "chunk data terminator unchecked (%s)" % label, "%s moves past a chunk's data without having found CR LF at %s[%s + chunkSize] and [+1]: `5 CRLF helloXX 0 CRLF CRLF` is "
+                 "framed as a valid body (the sibling endpoint rejects it) — framing by guesswork" % (last(f_.name), buf, base), okdesc="%s: CRLF after chunk data verified" % label)
     # trailer section: the last-chunk arm returns a position only behind an empty-line test
     f = fn(ctx, HS, "findChunkedRequestEnd", HSF)
     zb = [b for b in f.blocks.values() if b.cond is not None and common.cmp_parts(b.cond) and key_of(common.cmp_parts(b.cond)[1]) == "chunkSize" and const_value(common.cmp_parts(b.cond)[2]) == 0 and common.cmp_parts(b.cond)[0] == "=="]
